@@ -1,30 +1,529 @@
 package main
 
-// Goroutine mode: placeholder types; the symbolic scheduler is filled in
-// by scheduler_impl.go.
+// Goroutine mode: a cooperative scheduler over the interpreter's
+// goroutines. Exactly one interpreted goroutine runs at a time; it can be
+// pre-empted only at visible operations (go, goroutine exit, mutex
+// lock/unlock, Cond wait/signal/broadcast, WaitGroup, channel operations,
+// select, runtime.Gosched). At every such point the choice of the next
+// goroutine among the enabled ones is a symbolic variable sched_k
+// constrained to the enabled set: the explorer forks over its feasible
+// values, so a path is one schedule (per data path) and a counter-example
+// model contains the schedule. A state with live goroutines none of which is
+// enabled is a deadlock (reported unless the harness quiesces on purpose).
 
 import (
+	"fmt"
+	"go/token"
+	"go/types"
+	"sort"
+
 	"golang.org/x/tools/go/ssa"
 )
 
 type goroutine struct {
-	id int
+	id      int
+	resume  chan bool // true: run, false: die
+	done    bool
+	waitFor func() bool // nil: runnable; otherwise enabled iff waitFor()
+	why     string
+	depth   int
+	isMain  bool
+}
+
+type schedEvent struct {
+	g     *goroutine
+	panic any // non-nil: the goroutine ended with this panic
+	exit  bool
+}
+
+type mutexState struct {
+	locked  bool
+	readers int
+}
+
+type condState struct {
+	waiters []*condWaiter
+}
+
+type condWaiter struct {
+	g     *goroutine
+	woken bool
 }
 
 type scheduler struct {
-	nchan int
+	i        *interpreter
+	gs       []*goroutine
+	cur      *goroutine
+	events   chan schedEvent
+	nchan    int
+	mutexes  map[*value]*mutexState
+	conds    map[*value]*condState
+	wgs      map[*value]*int
+	npicks   int
+	dead     bool
+	maxPicks int
+	trace    []string
+	quiesced bool
 }
 
-func (s *scheduler) send(fr *frame, c *gchan, v value)          { panic("scheduler: not implemented") }
-func (s *scheduler) recv(fr *frame, c *gchan) (value, bool)      { panic("scheduler: not implemented") }
-func (s *scheduler) closeChan(fr *frame, c *gchan)               { panic("scheduler: not implemented") }
-func (s *scheduler) spawn(fr *frame, fn value, args []value)     { panic("scheduler: not implemented") }
-func (s *scheduler) selectStmt(fr *frame, in *ssa.Select) value  { panic("scheduler: not implemented") }
+type killed struct{}
 
-func (s *scheduler) lock(fr *frame, m *value)   {}
-func (s *scheduler) unlock(fr *frame, m *value) {}
-func (s *scheduler) yield(fr *frame)            {}
+func newScheduler(i *interpreter) *scheduler {
+	return &scheduler{i: i, events: make(chan schedEvent), mutexes: map[*value]*mutexState{}, conds: map[*value]*condState{},
+		wgs: map[*value]*int{}, maxPicks: 400}
+}
 
-func runGoroutineMode(i *interpreter, fn *ssa.Function) { panic("goroutine mode: not implemented") }
+// runGoroutineMode runs the harness as goroutine 0 under the scheduler.
+func runGoroutineMode(i *interpreter, fn *ssa.Function) {
+	s := newScheduler(i)
+	i.sched = s
+	defer func() { i.sched = nil }()
+	main := &goroutine{id: 0, resume: make(chan bool), isMain: true}
+	s.gs = append(s.gs, main)
+	s.start(main, fn, nil)
+	s.loop()
+}
+
+// start launches the Go goroutine carrying interpreted goroutine g.
+func (s *scheduler) start(g *goroutine, fn value, args []value) {
+	go func() {
+		if !<-g.resume {
+			return
+		}
+		var pv any
+		func() {
+			defer func() { pv = recover() }()
+			fr := &frame{i: s.i, g: g}
+			call(s.i, fr, token.NoPos, fn, args)
+		}()
+		if _, isKilled := pv.(killed); isKilled {
+			return
+		}
+		if _, isGoexit := pv.(goexitPanic); isGoexit {
+			pv = nil
+		}
+		g.done = true
+		s.events <- schedEvent{g: g, panic: pv, exit: true}
+	}()
+}
+
+func (s *scheduler) enabled() []*goroutine {
+	var out []*goroutine
+	for _, g := range s.gs {
+		if g.done {
+			continue
+		}
+		if g.waitFor == nil || g.waitFor() {
+			out = append(out, g)
+		}
+	}
+	return out
+}
+
+func (s *scheduler) describeBlocked() string {
+	var parts []string
+	for _, g := range s.gs {
+		if !g.done {
+			parts = append(parts, fmt.Sprintf("g%d:%s", g.id, g.why))
+		}
+	}
+	sort.Strings(parts)
+	return fmt.Sprint(parts)
+}
+
+// loop is the scheduler proper; it runs on the explorer's goroutine.
+func (s *scheduler) loop() {
+	defer s.killAll()
+	for {
+		en := s.enabled()
+		if len(en) == 0 {
+			alive := 0
+			for _, g := range s.gs {
+				if !g.done {
+					alive++
+				}
+			}
+			if alive == 0 {
+				return
+			}
+			// deadlock: live goroutines, none enabled
+			panic(pathEnd{kind: "deadlock", msg: "all goroutines are blocked: " + s.describeBlocked()})
+		}
+		g := en[0]
+		if len(en) > 1 {
+			s.npicks++
+			if s.npicks > s.maxPicks {
+				panic(pathEnd{kind: "budget", msg: "scheduling decisions exceeded"})
+			}
+			r := s.i.run
+			ts := s.i.ts
+			v := r.newVar(64, "sched", fmt.Sprintf("pick among %d enabled", len(en)))
+			r.addPC(ts.Cmp(opULt, v, ts.Const(64, uint64(len(en)))))
+			k := r.concretize(v)
+			if int(k) >= len(en) {
+				panic(pathEnd{kind: "assume-false"})
+			}
+			g = en[k]
+		}
+		s.cur = g
+		g.waitFor = nil
+		s.i.depth = g.depth
+		g.resume <- true
+		ev := <-s.events
+		ev.g.depth = s.i.depth
+		if ev.panic != nil {
+			panic(ev.panic)
+		}
+		if ev.exit && ev.g.isMain {
+			// the harness returned: remaining goroutines are abandoned (as at process exit)
+			return
+		}
+	}
+}
+
+func (s *scheduler) killAll() {
+	s.dead = true
+	for _, g := range s.gs {
+		if !g.done {
+			g.done = true
+			select {
+			case g.resume <- false:
+			default:
+				// the goroutine is not parked on resume (it is the one that panicked): nothing to do
+			}
+		}
+	}
+}
+
+// yield parks the current goroutine until the scheduler resumes it.
+// If waitFor is non-nil the goroutine is enabled only when it holds.
+func (s *scheduler) park(fr *frame, why string, waitFor func() bool) {
+	g := fr.g
+	if g == nil {
+		g = s.cur
+	}
+	g.why = why
+	g.waitFor = waitFor
+	s.events <- schedEvent{g: g}
+	if !<-g.resume {
+		panic(killed{})
+	}
+}
+
+func (s *scheduler) yield(fr *frame) { s.park(fr, "yield", nil) }
+
+func (s *scheduler) spawn(fr *frame, fn value, args []value) {
+	g := &goroutine{id: len(s.gs), resume: make(chan bool)}
+	s.gs = append(s.gs, g)
+	s.start(g, fn, args)
+	s.park(fr, "go", nil)
+}
+
+// ---- mutex ---------------------------------------------------------------
+
+func (s *scheduler) mstate(m *value) *mutexState {
+	st := s.mutexes[m]
+	if st == nil {
+		st = &mutexState{}
+		s.mutexes[m] = st
+	}
+	return st
+}
+
+func (s *scheduler) lock(fr *frame, m *value) {
+	st := s.mstate(m)
+	s.park(fr, "Lock", func() bool { return !st.locked && st.readers == 0 })
+	st.locked = true
+}
+
+func (s *scheduler) unlock(fr *frame, m *value) {
+	st := s.mstate(m)
+	if !st.locked {
+		panic(targetPanic{iface{s.i.runtimeErrorString, "sync: unlock of unlocked mutex"}})
+	}
+	st.locked = false
+	s.park(fr, "Unlock", nil)
+}
+
+func (s *scheduler) rlock(fr *frame, m *value) {
+	st := s.mstate(m)
+	s.park(fr, "RLock", func() bool { return !st.locked })
+	st.readers++
+}
+
+func (s *scheduler) runlock(fr *frame, m *value) {
+	st := s.mstate(m)
+	st.readers--
+	s.park(fr, "RUnlock", nil)
+}
+
+// ---- sync.Cond -------------------------------------------------------------
+
+// condLocker finds the mutex behind c.L (a *sync.Mutex or *sync.RWMutex).
+func (s *scheduler) condLocker(fr *frame, c *value) *value {
+	st := fr.fn.Signature.Recv().Type().(*types.Pointer).Elem().Underlying().(*types.Struct)
+	cs := (*c).(structure)
+	for k := 0; k < st.NumFields(); k++ {
+		if st.Field(k).Name() == "L" {
+			l := cs[k].(iface)
+			if l.t == nil {
+				s.i.rtPanic("invalid memory address or nil pointer dereference")
+			}
+			return l.v.(*value)
+		}
+	}
+	panic("sync.Cond without field L")
+}
+
+func (s *scheduler) condWait(fr *frame, c *value) {
+	m := s.condLocker(fr, c)
+	cst := s.conds[c]
+	if cst == nil {
+		cst = &condState{}
+		s.conds[c] = cst
+	}
+	w := &condWaiter{g: fr.g}
+	cst.waiters = append(cst.waiters, w)
+	mst := s.mstate(m)
+	if !mst.locked {
+		panic(targetPanic{iface{s.i.runtimeErrorString, "sync: unlock of unlocked mutex"}})
+	}
+	mst.locked = false
+	// atomically: unlock and sleep; after the wake-up, re-acquire the lock
+	s.park(fr, "Cond.Wait", func() bool { return w.woken })
+	s.park(fr, "Cond.Wait(relock)", func() bool { return !mst.locked && mst.readers == 0 })
+	mst.locked = true
+}
+
+func (s *scheduler) condSignal(fr *frame, c *value, all bool) {
+	if cst := s.conds[c]; cst != nil {
+		for len(cst.waiters) > 0 {
+			w := cst.waiters[0]
+			cst.waiters = cst.waiters[1:]
+			w.woken = true
+			if !all {
+				break
+			}
+		}
+	}
+	name := "Cond.Signal"
+	if all {
+		name = "Cond.Broadcast"
+	}
+	s.park(fr, name, nil)
+}
+
+// ---- sync.WaitGroup --------------------------------------------------------
+
+func (s *scheduler) wgCounter(w *value) *int {
+	c := s.wgs[w]
+	if c == nil {
+		c = new(int)
+		s.wgs[w] = c
+	}
+	return c
+}
+
+func (s *scheduler) wgAdd(fr *frame, w *value, delta int) {
+	c := s.wgCounter(w)
+	*c += delta
+	if *c < 0 {
+		panic(targetPanic{iface{s.i.runtimeErrorString, "sync: negative WaitGroup counter"}})
+	}
+	s.park(fr, "WaitGroup.Add", nil)
+}
+
+func (s *scheduler) wgWait(fr *frame, w *value) {
+	c := s.wgCounter(w)
+	s.park(fr, "WaitGroup.Wait", func() bool { return *c == 0 })
+}
+
+// ---- channels --------------------------------------------------------------
+
+func (s *scheduler) send(fr *frame, c *gchan, v value) {
+	if c == nil {
+		s.park(fr, "send on nil channel", func() bool { return false })
+	}
+	s.park(fr, "chan send", nil) // pre-emption point before the operation
+	if c.closed {
+		panic(targetPanic{iface{s.i.runtimeErrorString, "send on closed channel"}})
+	}
+	if len(c.buf) < c.cap {
+		c.buf = append(c.buf, v)
+		return
+	}
+	w := &waiter{g: fr.g, val: v}
+	c.sendq = append(c.sendq, w)
+	s.park(fr, fmt.Sprintf("chan send (blocked, chan %d)", c.id), func() bool { return w.done || c.closed })
+	if !w.done {
+		// woken by close
+		for k, x := range c.sendq {
+			if x == w {
+				c.sendq = append(c.sendq[:k], c.sendq[k+1:]...)
+				break
+			}
+		}
+		panic(targetPanic{iface{s.i.runtimeErrorString, "send on closed channel"}})
+	}
+}
+
+// tryRecv performs a receive if it can complete now.
+func (c *gchan) tryRecv() (v value, ok bool, ready bool) {
+	if len(c.buf) > 0 {
+		v = c.buf[0]
+		c.buf = c.buf[1:]
+		if len(c.sendq) > 0 {
+			w := c.sendq[0]
+			c.sendq = c.sendq[1:]
+			c.buf = append(c.buf, w.val)
+			w.done = true
+		}
+		return v, true, true
+	}
+	if len(c.sendq) > 0 {
+		w := c.sendq[0]
+		c.sendq = c.sendq[1:]
+		w.done = true
+		return w.val, true, true
+	}
+	if c.closed {
+		return nil, false, true
+	}
+	return nil, false, false
+}
+
+func (c *gchan) canRecv() bool { return len(c.buf) > 0 || len(c.sendq) > 0 || c.closed }
+
+func (s *scheduler) recv(fr *frame, c *gchan) (value, bool) {
+	if c == nil {
+		s.park(fr, "receive on nil channel", func() bool { return false })
+	}
+	c.recvWaiting++
+	s.park(fr, fmt.Sprintf("chan recv (chan %d)", c.id), c.canRecv)
+	c.recvWaiting--
+	v, ok, ready := c.tryRecv()
+	if !ready {
+		panic("scheduler: receive resumed but not ready")
+	}
+	return v, ok
+}
+
+func (s *scheduler) closeChan(fr *frame, c *gchan) {
+	c.closed = true
+	s.park(fr, "close", nil)
+}
+
+func (s *scheduler) selectStmt(fr *frame, instr *ssa.Select) value {
+	type caseInfo struct {
+		c    *gchan
+		send bool
+		val  value
+	}
+	var cases []caseInfo
+	for _, st := range instr.States {
+		ci := caseInfo{c: fr.get(st.Chan).(*gchan), send: st.Dir == types.SendOnly}
+		if ci.send {
+			ci.val = fr.get(st.Send)
+		}
+		cases = append(cases, ci)
+	}
+	ready := func() []int {
+		var r []int
+		for k, ci := range cases {
+			if ci.c == nil {
+				continue
+			}
+			if ci.send {
+				if ci.c.closed || len(ci.c.buf) < ci.c.cap || ci.c.recvWaiting > 0 {
+					r = append(r, k)
+				}
+			} else if ci.c.canRecv() {
+				r = append(r, k)
+			}
+		}
+		return r
+	}
+	mkResult := func(chosen int, v value, ok bool) value {
+		r := tuple{chosen, ok}
+		for k, st := range instr.States {
+			if st.Dir == types.RecvOnly {
+				if k == chosen && ok {
+					r = append(r, v)
+				} else {
+					r = append(r, zero(st.Chan.Type().Underlying().(*types.Chan).Elem()))
+				}
+			}
+		}
+		return r
+	}
+	s.park(fr, "select", nil)
+	if !instr.Blocking {
+		rd := ready()
+		if len(rd) == 0 {
+			return mkResult(-1, nil, false)
+		}
+	}
+	// a receiver blocked in select makes unbuffered senders able to proceed
+	for _, ci := range cases {
+		if ci.c != nil && !ci.send {
+			ci.c.recvWaiting++
+		}
+	}
+	s.park(fr, "select (blocked)", func() bool { return len(ready()) > 0 })
+	for _, ci := range cases {
+		if ci.c != nil && !ci.send {
+			ci.c.recvWaiting--
+		}
+	}
+	rd := ready()
+	k := rd[0]
+	if len(rd) > 1 {
+		r := s.i.run
+		ts := s.i.ts
+		v := r.newVar(64, "select", fmt.Sprintf("pick among %d ready cases", len(rd)))
+		r.addPC(ts.Cmp(opULt, v, ts.Const(64, uint64(len(rd)))))
+		k = rd[r.concretize(v)]
+	}
+	ci := cases[k]
+	if ci.send {
+		if ci.c.closed {
+			panic(targetPanic{iface{s.i.runtimeErrorString, "send on closed channel"}})
+		}
+		if len(ci.c.buf) < ci.c.cap {
+			ci.c.buf = append(ci.c.buf, ci.val)
+		} else {
+			w := &waiter{g: fr.g, val: ci.val}
+			ci.c.sendq = append(ci.c.sendq, w)
+			s.park(fr, "select send (handoff)", func() bool { return w.done || ci.c.closed })
+		}
+		return mkResult(k, nil, false)
+	}
+	v, ok, _ := ci.c.tryRecv()
+	return mkResult(k, v, ok)
+}
+
+// quiesce blocks the calling (harness) goroutine until no other goroutine is enabled;
+// returns the number of other goroutines that are still alive (blocked).
+func (s *scheduler) quiesce(fr *frame) int {
+	me := fr.g
+	s.park(fr, "quiesce", func() bool {
+		for _, g := range s.gs {
+			if g == me || g.done {
+				continue
+			}
+			if g.waitFor == nil || g.waitFor() {
+				return false
+			}
+		}
+		return true
+	})
+	n := 0
+	for _, g := range s.gs {
+		if g != me && !g.done {
+			n++
+		}
+	}
+	return n
+}
 
 type fsModel struct{}
